@@ -381,6 +381,21 @@ def rule_xen(rep, prog, eff):
     order = [canon(c.target or "").split("::")[-1] for c in b.calls()]
     ok = "drop" in order and "unmap_ioctl" in order and order.index("drop") < order.index("unmap_ioctl")
     rep("R17.4.unmap_order", b.key, ok, b.where(), f"call order {order}: the mapping must be dropped (munmap) before the unmap ioctl")
+    ui = [c for c in b.calls() if canon(c.target or "").endswith("MmapXenGrant::unmap_ioctl")]
+    okc = False
+    detail = f"{len(ui)} unmap_ioctl calls"
+    if len(ui) == 1:
+        a = [deep_strip(x) for x in ui[0].args()]
+        cnt = a[1]
+        while cnt[0] in ('cast',):
+            cnt = deep_strip(cnt[2])
+        from ..pat import unref as _unref
+        cnt = _unref(a[1])
+        pg = cnt[1] if cnt[0] == 'field' and cnt[2] == '0' else None
+        okc = pg is not None and is_call(_unref(pg), "pages") and _unref(_unref(pg)[2][0])[:2] == ('param', 3) and _unref(a[2])[:2] == ('param', 4)
+        detail = f"unmap_ioctl({tstr(a[1])}, {tstr(a[2])})"
+    n += 1
+    rep("R17.4.unmap_count", b.key, okc, b.where(), detail + "; required unmap_ioctl(pages(size).0, index): every grant reference that was mapped for this window is released")
     return n
 
 
